@@ -5,19 +5,19 @@ from .. import core, mt_check
 def run(tier, seed, verdict):
     quick = tier == "quick"
     procs = 5   # each process runs 2-7 busy threads; more processes than cores/3 only adds contention
-    iters = 1600 if quick else 16000
+    iters = 1600 if quick else 12000
     victims = (0, 101, 102, 104, 103, 105)
     res = mt_check.MtResult()
     # ASan: freed callback storage is poisoned the moment deregistration returns
     mt_check.run_mt("C03", "stoptok", "asan20d",
                     mt_check.seeds_args(seed, procs, ["iters=%d" % iters, "maxR=%d" % (2 if quick else 4),
                                                       "maxS=%d" % (2 if quick else 3)], victims),
-                    verdict, res)
+                    verdict, res, timeout=900 if quick else 5400)
     # TSan (clang): happens-before analysis of the same workload
     mt_check.run_mt("C03", "stoptok", "tsan20d",
                     mt_check.seeds_args(seed + 7, procs, ["iters=%d" % (iters // 2), "maxR=%d" % (2 if quick else 4),
                                                           "maxS=%d" % (2 if quick else 3)], victims),
-                    verdict, res)
+                    verdict, res, timeout=900 if quick else 5400)
     st = res.stats
     outcomes = {k: v for k, v in st.items() if k.startswith("outcome_")}
     need = ["outcome_destructor_waited_for_running_callback", "outcome_inline_execution_in_constructor",
